@@ -33,10 +33,15 @@ func c11Mix(r gen.R, n int, serials []uint32) []*c11Reply {
 	op := rm.FindOp("GetDevice")
 	l := op.ReplyLayout()
 	out := []*c11Reply{}
+	malformedSerials := []uint32{}
 	for i := 0; i < n; i++ {
 		serial := r.Serial()
 		if len(serials) > 0 && r.Chance(0.5) {
 			serial = serials[r.Pick(len(serials))]
+		}
+		if len(malformedSerials) > 0 && r.Chance(0.3) {
+			// the controller whose earlier datagram was malformed answers properly now: its entry is not hidden by the earlier junk
+			serial = malformedSerials[r.Pick(len(malformedSerials))]
 		}
 		rep := &c11Reply{class: "valid", serial: serial}
 		rep.data = r.Reply(op, 0x17, serial, rm.Vals{}, true)
@@ -76,6 +81,9 @@ func c11Mix(r gen.R, n int, serials []uint32) []*c11Reply {
 			rep.class = "zero-date"
 			f := l.Field("Date")
 			copy(rep.data[f.Offset:], []byte{0, 0, 0, 0})
+		}
+		if rep.class != "valid" && rep.class != "duplicate" && rep.class != "zero-date" && len(rep.data) >= 8 {
+			malformedSerials = append(malformedSerials, uint32(rep.data[4])|uint32(rep.data[5])<<8|uint32(rep.data[6])<<16|uint32(rep.data[7])<<24)
 		}
 		// verdict
 		switch {
